@@ -35,6 +35,8 @@ struct Task {
     running: bool,
     done: bool,
     polls: u32,
+    /// Harness time (see `set_time`) of the last wake-up.
+    woken_at: Option<u64>,
 }
 
 struct Timer {
@@ -55,6 +57,17 @@ struct Sim {
 }
 
 static EPOCH: AtomicU64 = AtomicU64::new(1);
+static TIME: AtomicU64 = AtomicU64::new(0);
+
+/// Harness-defined logical time, stamped on task wake-ups.
+pub fn set_time(t: u64) {
+    TIME.store(t, Ordering::SeqCst);
+}
+
+/// Harness time at which the task was last woken, and how often it has been polled.
+pub fn wake_info(id: TaskId) -> (Option<u64>, u32) {
+    with(|sim| sim.tasks.get(id).map(|t| (t.woken_at, t.polls)).unwrap_or((None, 0)))
+}
 static SIM: Mutex<Option<Sim>> = Mutex::new(None);
 
 fn lock() -> MutexGuard<'static, Option<Sim>> {
@@ -86,6 +99,9 @@ impl Wake for TaskWaker {
         }
         let hook = with(|sim| {
             if let Some(t) = sim.tasks.get_mut(self.id) {
+                if !t.done {
+                    t.woken_at = Some(TIME.load(Ordering::SeqCst));
+                }
                 if !t.done && !t.queued {
                     t.queued = true;
                     sim.ready.push_back(self.id);
@@ -138,6 +154,7 @@ fn add_task(kind: Kind, label: String, fut: BoxFut) -> TaskId {
             running: false,
             done: false,
             polls: 0,
+            woken_at: None,
         });
         sim.ready.push_back(id);
         (id, sim.wake_hook.clone())
